@@ -77,7 +77,8 @@ def check_list(points, tol, slack=0, as_tuples=False):
 
 
 def check_predicate(points, tol, ref_slack=1e-9):
-    """points_in_tolerance(p, tol) == (max_dist_from_n_points(p) < tol), ties skipped."""
+    """points_in_tolerance(p, tol) == (max_dist_from_n_points(p) < tol); exact ties are judged
+    strictly where all inputs are exact, skipped (and counted) elsewhere."""
     plot_utils = _lib()
     try:
         fast = plot_utils.points_in_tolerance(list(points), tol)
@@ -86,9 +87,19 @@ def check_predicate(points, tol, ref_slack=1e-9):
         return [("pred_raise", f"predicate on {points} tol {tol} raised {exc!r}")], False
     exact2 = max(sq_dist_point_segment(p, points[0], points[-1]) for p in points[1:-1])
     tol2 = F(tol) * F(tol)
-    if exact2 == tol2:
-        return [], True                     # exact tie on a strict threshold: skipped, counted
+    tie = exact2 == tol2
+    exact_inputs = all(isinstance(v, int) for p in points for v in p) and \
+        float(tol) * 64 == int(float(tol) * 64)
+    if tie and not exact_inputs:
+        return [], True                     # a tie the library can only see through rounding
     out = []
+    if tie:
+        # integer coordinates and a dyadic tolerance: every quantity is exact, and a vertex at
+        # distance exactly tol is *not* closer than tol (tol = 0 with collinear points included)
+        if bool(fast):
+            out.append(("pred_fast", f"points_in_tolerance({points}, {tol}) = {fast!r}; the "
+                        f"largest distance is exactly {tol}, which is not closer than {tol}"))
+        return out, True
     if bool(fast) != (exact2 < tol2):
         out.append(("pred_fast", f"points_in_tolerance({points}, {tol}) = {fast!r}; the largest "
                     f"exact squared distance is {exact2} vs tol^2 {tol2}"))
@@ -151,8 +162,8 @@ def _pred_chunk(args):
     part = core.Part()
     for points in tuples:
         for tol in tols:
-            if tol <= 0:
-                continue
+            if tol < 0:
+                continue                    # the predicate squares its tolerance
             bad, tie = check_predicate(points, tol)
             part.count("predicate_cases")
             if tie:
